@@ -81,6 +81,9 @@ func (h accountsResourceHandler) ResolveFilter(opts common.ResourceQuery[any], o
 			if !h.store.ledger.HasFeature(features.FeatureMovesHistory, "ON") {
 				return "", nil, NewErrMissingFeature(features.FeatureMovesHistory)
 			}
+			if !h.store.ledger.HasFeature(features.FeatureMovesHistoryPostCommitEffectiveVolumes, "SYNC") {
+				return "", nil, NewErrMissingFeature(features.FeatureMovesHistoryPostCommitEffectiveVolumes)
+			}
 			selectBalance = selectBalance.
 				ModelTableExpr(h.store.GetPrefixedRelationName("moves")).
 				DistinctOn("asset").
@@ -133,6 +136,9 @@ func (h accountsResourceHandler) Expand(opts common.ResourceQuery[any], property
 	selectRowsQuery := h.store.newScopedSelect().
 		Where("accounts_address in (select address from dataset)")
 	if opts.UsePIT() {
+		if !h.store.ledger.HasFeature(features.FeatureMovesHistory, "ON") {
+			return nil, nil, NewErrMissingFeature(features.FeatureMovesHistory)
+		}
 		selectRowsQuery = selectRowsQuery.
 			ModelTableExpr(h.store.GetPrefixedRelationName("moves")).
 			DistinctOn("accounts_address, asset").
